@@ -418,6 +418,8 @@ def accept_arg(t):
         return "(lower result)"
     if t == "&result":
         return "result"
+    if t == "&result.to_ascii_lowercase()":
+        return "(result.map Char.toLower)"   # ASCII letters only: not `str::to_lowercase`
     m = re.fullmatch(r"&(\w+)\(&result\)", t)
     if m and m.group(1) in HELPERS:
         return HELPERS[m.group(1)]
